@@ -39,7 +39,7 @@ PROBES = ["cache_entry_read_by_engine_with_other_attrs", "weak_entry_purged_by_g
 REAL = ["synkit.Graph.Matcher.graph_matcher.GraphMatcherEngine.isomorphic / get_mappings / _pre_check / _wl_hash_cached (class-level weak cache)",
         "synkit.Graph.Matcher.subgraph_matcher.SubgraphMatch.subgraph_isomorphism / is_subgraph",
         "synkit.Graph.Matcher.subgraph_matcher.SubgraphSearchEngine.find_subgraph_mappings (_quick_pre_filter on/off)",
-        "synkit.Graph.Matcher.graph_morphism.graph_isomorphism / subgraph_isomorphism", "networkx VF2"]
+        "synkit.Graph.Matcher.graph_morphism.graph_isomorphism / find_graph_isomorphism (fast_invariant_check on/off) / subgraph_isomorphism", "networkx VF2"]
 STUB = ["cyclic GC trigger (gc.disable + scheduled gc.collect): decides when dropped graphs leave the weak cache"]
 ASSUMPTIONS = [
     "reference = plain backtracking enumeration of bijections / injections on <= 6 nodes (dsim/props/graphref.py), independent of VF2",
@@ -75,10 +75,15 @@ def rand_spec(rng, n: Optional[int] = None) -> Dict[str, Any]:
     edges = []
     p = rng.choice([0.3, 0.5, 0.7])
     no_order = rng.random() < 0.12   # some edges without an 'order' attribute (helpers with defaults read it as 1)
+    # bond orders are not always 1/2: aromatic 1.5, fractional orders from resonance averaging, (before, after) pairs of ITS graphs
+    alphabet = rng.choice([[1, 1, 2]] * 8 + [[1, 1.5, 2], [1.2, 1.33, 1.4, 1.5], [[1, 2], [2, 1], [1, 1]]])
     for i in range(n):
         for j in range(i + 1, n):
             if rng.random() < p:
-                edges.append([i + 1, j + 1, (None if (no_order and rng.random() < 0.5) else rng.choice([1, 1, 2]))])
+                edges.append([i + 1, j + 1, (None if (no_order and rng.random() < 0.5) else rng.choice(alphabet))])
+    if rng.random() < 0.03:
+        i = rng.randint(1, n)
+        edges.append([i, i, rng.choice(alphabet)])       # a self-loop: unusual, legal for the generic matchers
     return {"nodes": nodes, "edges": edges}
 
 
@@ -113,7 +118,7 @@ def edit_spec(sp: Dict[str, Any], rng) -> Dict[str, Any]:
         n[1] = "O" if n[1] == "C" else "C"
     elif c < 0.6 and sp["edges"]:
         e = rng.choice(sp["edges"])
-        e[2] = {None: 2, 1: 2, 2: 1}[e[2]]
+        e[2] = 1 if e[2] == 2 else 2
     elif c < 0.75 and sp["edges"]:
         sp["edges"].remove(rng.choice(sp["edges"]))
     elif c < 0.9:
@@ -153,7 +158,7 @@ def build(sp: Dict[str, Any]) -> nx.Graph:
         if o is None:
             g.add_edge(u, v)
         else:
-            g.add_edge(u, v, order=o)
+            g.add_edge(u, v, order=(tuple(o) if isinstance(o, list) else o))
     return g
 
 
@@ -175,7 +180,7 @@ def morph_inplace(g: nx.Graph, sp: Dict[str, Any]) -> None:
         if o is None:
             g.add_edge(u, v)
         else:
-            g.add_edge(u, v, order=o)
+            g.add_edge(u, v, order=(tuple(o) if isinstance(o, list) else o))
 
 
 def snapshot(g: nx.Graph) -> Any:
@@ -664,6 +669,24 @@ def _run(case: Dict[str, Any], sim: Sim, world: World) -> None:
             back = bool(gmorph.graph_isomorphism(b["g"], a["g"], use_defaults=True))
             if back != got:
                 raise Violation(PROP, site, "verdict_not_symmetric", "", {"ab": got, "ba": back})
+            # the mapping-returning sibling: its own defaults (element, atom_map, hcount equal; order default 1) and its
+            # cheap invariant pre-check, which must never change the answer
+            site = "graph_morphism.find_graph_isomorphism"
+            dd2 = {"element": "*", "atom_map": 0, "hcount": 0}
+            ra2 = ref_graph(a["g"], ["element", "atom_map", "hcount"], ["order"], dd2, 1)
+            rb2 = ref_graph(b["g"], ["element", "atom_map", "hcount"], ["order"], dd2, 1)
+            truth2 = gr.exists(ra2, rb2, mode="iso", node_ok=_eq_labels)
+            m_fast = gmorph.find_graph_isomorphism(a["g"], b["g"])
+            m_slow = gmorph.find_graph_isomorphism(a["g"], b["g"], fast_invariant_check=False)
+            sim.probe("filter_on_off_pair")
+            if (m_fast is None) != (m_slow is None):
+                raise Violation(PROP, site, "filter_changes_verdict", "fast_invariant_check",
+                                {"on": m_fast is not None, "off": m_slow is not None, "a": a["spec"], "b": b["spec"]})
+            if (m_slow is not None) != truth2:
+                raise Violation(PROP, site, "verdict_wrong", "", {"got": m_slow is not None, "reference": truth2, "a": a["spec"], "b": b["spec"]})
+            for m_ in (m_fast, m_slow):
+                if m_ is not None and not gr.is_valid_map(ra2, rb2, dict(m_), mode="iso", node_ok=_eq_labels):
+                    raise Violation(PROP, site, "embedding_invalid", "", {"map": {str(x): str(y) for x, y in m_.items()}, "a": a["spec"], "b": b["spec"]})
             sim.state(("giso", got, len(ra.nodes)))
             sim.event("q_giso", {"got": got})
         elif k == "q_find":
